@@ -92,6 +92,17 @@ def enumerated(tier):
                     {"formats": b, "root": "", "sf": None, "edits": {}},
                 ],
             }
+    if tier == "thorough":
+        # all 21^3 = 9261 sequences of length 3 over the subsets of size <= 2
+        yield from _enum_triples()
+
+
+def _enum_triples():
+    subs = _subsets(2)
+    for a in subs:
+        for b in subs:
+            for c in subs:
+                yield {"files": ["a.txt"], "nested": [], "gens": [{"formats": x, "root": "", "sf": None, "edits": {}} for x in (a, b, c)]}
 
 
 def run_case(scn, ctx):
